@@ -136,7 +136,16 @@ func (v *Verifier) solve(o *Oblig, dir string, all bool) {
 		}
 		file := filepath.Join(dir, sanitizeFile(o.Name)+suffix+".smt2")
 		os.WriteFile(file, []byte(q+"(get-model)\n"), 0o644)
-		st, solver, secs, out, model := v.race(file, all)
+		rv := v
+		if o.Expected {
+			// listed as a known finding: it is expected not to discharge, so do not
+			// spend the full timeout on it (a short attempt still notices a repair)
+			rv = &Verifier{Timeout: 3}
+			if v.Timeout < 3 {
+				rv.Timeout = v.Timeout
+			}
+		}
+		st, solver, secs, out, model := rv.race(file, all)
 		o.Secs += secs
 		if len(parts) > 1 {
 			out = fmt.Sprintf("[part %d/%d] %s", i+1, len(parts), out)
